@@ -230,6 +230,757 @@ let real_wf (h : string) : bool =
 let sop_wf (o : sop) = match o with SI v | SO v -> i32_fits v | SR h -> real_wf h
 
 (* generic parse-write-parse line *)
+
+let kvp (s : string) : (string * string) list =
+  List.filter_map (fun kv ->
+      match String.index_opt kv '=' with
+      | Some i -> Some (String.sub kv 0 i, String.sub kv (i + 1) (String.length kv - i - 1))
+      | None -> None) (split_on ';' s)
+let ishex (s : string) =
+  s = "-" || (String.length s mod 2 = 0 && String.length s > 0 &&
+              (let ok = ref true in String.iter (fun c -> if not ((c >= '0' && c <= '9') || (c >= 'a' && c <= 'f')) then ok := false) s; !ok))
+
+(* ================================================================================================
+   C15, second part: composite glyphs and the cmap writers.
+   Model side: text <-> extracted values, the pipelines of harness/src/c15_glyfcmap.rs on the model.
+   Reference side (used by the judge only, nothing of the extracted model): decoders / encoders over
+   raw byte strings written after the OpenType `glyf` (composite glyph description) and `cmap`
+   chapters. *)
+let trail_z = [zi 0xa5; zi 0x5a; zi 0x3c]
+let sub_after (s : string) (i : int) = String.sub s i (String.length s - i)
+(* cases whose written size exceeds this are judged without the model: the extracted list functions
+   are not tail recursive *)
+let model_limit = 140_000
+
+(* ---------- number lists: v | v*k, runs of 3 and more are written v*k *)
+let nl_parse (s : string) : int list =
+  if s = "-" || s = "" then [] else
+    List.concat (List.map (fun it ->
+        match String.index_opt it '*' with
+        | Some i ->
+          let v = int_of_string (String.sub it 0 i) and k = int_of_string (sub_after it (i + 1)) in
+          List.init k (fun _ -> v)
+        | None -> [int_of_string it]) (split_on ',' s))
+let rle (items : string list) : string =
+  if items = [] then "-" else begin
+    let buf = Buffer.create 256 and first = ref true in
+    let emit s = (if not !first then Buffer.add_char buf ','); first := false; Buffer.add_string buf s in
+    let rec go l = match l with
+      | [] -> ()
+      | x :: _ ->
+        let rec count k l = match l with y :: r when y = x -> count (k + 1) r | _ -> (k, l) in
+        let (k, rest) = count 0 l in
+        if k >= 3 then emit (x ^ "*" ^ string_of_int k) else for _ = 1 to k do emit x done;
+        go rest in
+    go items; Buffer.contents buf
+  end
+let nl_show (l : int list) : string = rle (List.map string_of_int l)
+let zs (l : int list) : z list = List.map zi l
+let ints (l : z list) : int list = List.map z_to_int l
+
+(* ---------- raw byte strings *)
+let raw_of_hex (h : string) : string =
+  if h = "-" then "" else String.init (String.length h / 2) (fun i -> Char.chr (int_of_string ("0x" ^ String.sub h (2 * i) 2)))
+let hex_of_raw (s : string) : string =
+  if s = "" then "-" else begin
+    let b = Buffer.create (2 * String.length s) in
+    String.iter (fun c -> Buffer.add_string b (Printf.sprintf "%02x" (Char.code c))) s; Buffer.contents b
+  end
+exception Short
+let need (s : string) (i : int) (n : int) = if i < 0 || n < 0 || i + n > String.length s then raise Short
+let gu8 s i = Char.code s.[i]
+let gu16 s i = (gu8 s i lsl 8) lor gu8 s (i + 1)
+let gu32 s i = (gu16 s i lsl 16) lor gu16 s (i + 2)
+let sx bits v = if v >= 1 lsl (bits - 1) then v - (1 lsl bits) else v
+let gi16 s i = sx 16 (gu16 s i)
+let gi8 s i = sx 8 (gu8 s i)
+let pu8 b v = Buffer.add_char b (Char.chr (v land 255))
+let pu16 b v = pu8 b (v lsr 8); pu8 b v
+let pu32 b v = pu16 b (v lsr 16); pu16 b v
+let hexlen2 (h : string) = if h = "-" then 0 else String.length h / 2
+
+(* ================================================================ composite glyphs *)
+type rarg = RB of int | Rb of int | RW of int | Rw of int
+type rscale = RNone | RS of int | RX of int * int | RM of int * int * int * int
+type rcomp = { rf : int; rg : int; ra1 : rarg; ra2 : rarg; rs : rscale }
+type rcg = { rbbox : int list; rcomps : rcomp list; rinstr : string }
+
+let rarg_of_string (s : string) : rarg =
+  let v = int_of_string (sub_after s 1) in
+  match s.[0] with 'B' -> RB v | 'b' -> Rb v | 'W' -> RW v | 'w' -> Rw v | _ -> failwith ("arg " ^ s)
+let rarg_show = function RB v -> "B" ^ string_of_int v | Rb v -> "b" ^ string_of_int v
+                       | RW v -> "W" ^ string_of_int v | Rw v -> "w" ^ string_of_int v
+let rscale_of_string (s : string) : rscale =
+  if s = "-" then RNone else
+    match s.[0], List.map int_of_string (split_on '_' (sub_after s 1)) with
+    | 's', [a] -> RS a | 'x', [a; b] -> RX (a, b) | 'm', [a; b; c; d] -> RM (a, b, c, d)
+    | _ -> failwith ("scale " ^ s)
+let rscale_show = function
+  | RNone -> "-" | RS a -> Printf.sprintf "s%d" a | RX (a, b) -> Printf.sprintf "x%d_%d" a b
+  | RM (a, b, c, d) -> Printf.sprintf "m%d_%d_%d_%d" a b c d
+let rcomp_of_string (s : string) : rcomp =
+  match split_on ':' s with
+  | [f; g; a1; a2; sc] ->
+    { rf = int_of_string f land 0x1fef; rg = int_of_string g; ra1 = rarg_of_string a1; ra2 = rarg_of_string a2;
+      rs = rscale_of_string sc }
+  | _ -> failwith ("comp " ^ s)
+let rcomp_show (c : rcomp) : string =
+  String.concat ":" [string_of_int c.rf; string_of_int c.rg; rarg_show c.ra1; rarg_show c.ra2; rscale_show c.rs]
+let rcomps_of_string (s : string) : rcomp list = if s = "." then [] else List.map rcomp_of_string (split_on '+' s)
+let rcg_show (g : rcg) : string =
+  "C/" ^ String.concat "," (List.map string_of_int g.rbbox) ^ "/" ^
+  (if g.rcomps = [] then "." else String.concat "+" (List.map rcomp_show g.rcomps)) ^ "/" ^ hex_of_raw g.rinstr
+let raw_of_str (s : string) : string =
+  (* STR = - | h<hex> | r<len>x<byte> *)
+  if s = "-" then "" else if s.[0] = 'h' then raw_of_hex (sub_after s 1)
+  else match split_on 'x' (sub_after s 1) with
+    | [l; b] -> String.make (int_of_string l) (Char.chr (int_of_string b))
+    | _ -> failwith ("STR " ^ s)
+
+(* ---- model values *)
+let carg_of (a : rarg) : argkind * z =
+  match a with RB v -> (AU8, zi v) | Rb v -> (AI8, zi v) | RW v -> (AU16, zi v) | Rw v -> (AI16, zi v)
+let rarg_of ((k, v) : argkind * z) : rarg =
+  let v = z_to_int v in match k with AU8 -> RB v | AI8 -> Rb v | AU16 -> RW v | AI16 -> Rw v
+let ccomp_of (c : rcomp) : ccomp =
+  { cc_flags = zi c.rf; cc_gid = zi c.rg; cc_arg1 = carg_of c.ra1; cc_arg2 = carg_of c.ra2;
+    cc_scale = (match c.rs with RNone -> None | RS a -> Some (CScale (zi a)) | RX (a, b) -> Some (CXY (zi a, zi b))
+                              | RM (a, b, c, d) -> Some (CMatrix (zi a, zi b, zi c, zi d))) }
+let rcomp_of (c : ccomp) : rcomp =
+  { rf = z_to_int c.cc_flags; rg = z_to_int c.cc_gid; ra1 = rarg_of c.cc_arg1; ra2 = rarg_of c.cc_arg2;
+    rs = (match c.cc_scale with None -> RNone | Some (CScale a) -> RS (z_to_int a)
+                              | Some (CXY (a, b)) -> RX (z_to_int a, z_to_int b)
+                              | Some (CMatrix (a, b, c, d)) -> RM (z_to_int a, z_to_int b, z_to_int c, z_to_int d)) }
+let cg_show_m (g : cglyph) : string =
+  rcg_show { rbbox = ints g.cg_bbox; rcomps = List.map rcomp_of g.cg_comps;
+             rinstr = String.init (List.length g.cg_instr) (let a = Array.of_list g.cg_instr in fun i -> Char.chr (z_to_int a.(i))) }
+(* Glyph::read on the model: the shown result and the number of bytes left *)
+let cg_read_m (m : mode) (b : z list) : string * int =
+  match glyph_read_full m (table_ctxt b) with
+  | Ok (GComposite g, c') -> ("ok:" ^ cg_show_m g, List.length b - z_to_int c'.off)
+  | Ok (GSimple _, _) -> ("simple", 0)
+  | Ok (GEmpty, _) -> ("empty", 0)
+  | Err e -> (err_s e, 0) | Panic -> ("panic", 0) | OOB -> ("oob", 0)
+let cg_model (m : mode) (bbox : string) (comps : string) (instr : string) : string =
+  let g = { cg_bbox = zs (nl_parse bbox); cg_comps = List.map ccomp_of (rcomps_of_string comps); cg_instr = parse_str instr } in
+  match glyph_write_full (GComposite g) with
+  | Ok b ->
+    let (r, rem) = cg_read_m m (b @ trail_z) in
+    "w=" ^ hex_of_bytes b ^ ";r=" ^ r ^ (if starts_with "ok:" r then ";rem=" ^ string_of_int rem else "")
+  | w -> "w=" ^ w_s w
+let cgrd_model (m : mode) (d : z list) : string =
+  match glyph_read_full m (table_ctxt d) with
+  | Ok (GComposite g, c') ->
+    let r = cg_show_m g and n = z_to_string c'.off in
+    (match glyph_write_full (GComposite g) with
+     | Ok b ->
+       let (r2, rem2) = cg_read_m m (b @ trail_z) in
+       "r=ok:" ^ r ^ ";n=" ^ n ^ ";w=" ^ hex_of_bytes b ^ ";r2=" ^ r2 ^ (if starts_with "ok:" r2 then ";rem2=" ^ string_of_int rem2 else "")
+     | w -> "r=ok:" ^ r ^ ";n=" ^ n ^ ";w=" ^ w_s w)
+  | Ok _ -> "r=notcomposite"
+  | Err e -> "r=" ^ err_s e | Panic -> "panic" | OOB -> "oob"
+
+(* ---- reference: OpenType glyf, composite glyph description.  Reserved flag bits (4, 13-15) are
+   not kept by a reader; of several scale flags the first in the order scale, x-and-y, two-by-two
+   counts; instructions follow the last component when ANY component carries WE_HAVE_INSTRUCTIONS *)
+let ref_cg_decode (s : string) : (rcg * int) option =
+  try
+    need s 0 10;
+    if gi16 s 0 >= 0 then None else begin
+      let bbox = [gi16 s 2; gi16 s 4; gi16 s 6; gi16 s 8] in
+      let pos = ref 10 and comps = ref [] and more = ref true and any = ref false in
+      while !more do
+        need s !pos 4;
+        let f = gu16 s !pos land 0x1fef in
+        let g = gu16 s (!pos + 2) in
+        pos := !pos + 4;
+        let words = f land 1 <> 0 and xy = f land 2 <> 0 in
+        let rd () =
+          if words then begin
+            need s !pos 2; let v = if xy then Rw (gi16 s !pos) else RW (gu16 s !pos) in pos := !pos + 2; v
+          end else begin
+            need s !pos 1; let v = if xy then Rb (gi8 s !pos) else RB (gu8 s !pos) in pos := !pos + 1; v
+          end in
+        let a1 = rd () in
+        let a2 = rd () in
+        let f2 () = need s !pos 2; let v = gi16 s !pos in pos := !pos + 2; v in
+        let sc =
+          if f land 0x8 <> 0 then RS (f2 ())
+          else if f land 0x40 <> 0 then (let x = f2 () in let y = f2 () in RX (x, y))
+          else if f land 0x80 <> 0 then (let a = f2 () in let b = f2 () in let c = f2 () in let d = f2 () in RM (a, b, c, d))
+          else RNone in
+        comps := { rf = f; rg = g; ra1 = a1; ra2 = a2; rs = sc } :: !comps;
+        if f land 0x100 <> 0 then any := true;
+        more := f land 0x20 <> 0
+      done;
+      let instr =
+        if !any then begin
+          need s !pos 2; let n = gu16 s !pos in pos := !pos + 2;
+          need s !pos n; let r = String.sub s !pos n in pos := !pos + n; r
+        end else "" in
+      Some ({ rbbox = bbox; rcomps = List.rev !comps; rinstr = instr }, !pos)
+    end
+  with Short -> None
+let cg_any_instr (g : rcg) = List.exists (fun c -> c.rf land 0x100 <> 0) g.rcomps
+let ref_cg_encode (g : rcg) : string =
+  let b = Buffer.create 64 in
+  pu16 b 0xffff; List.iter (pu16 b) g.rbbox;
+  List.iter (fun c ->
+      pu16 b c.rf; pu16 b c.rg;
+      List.iter (fun a -> match a with RB v | Rb v -> pu8 b v | RW v | Rw v -> pu16 b v) [c.ra1; c.ra2];
+      (match c.rs with RNone -> () | RS a -> pu16 b a | RX (x, y) -> pu16 b x; pu16 b y
+                     | RM (p, q, r, t) -> pu16 b p; pu16 b q; pu16 b r; pu16 b t)) g.rcomps;
+  if cg_any_instr g then begin pu16 b (String.length g.rinstr); Buffer.add_string b g.rinstr end;
+  Buffer.contents b
+let in_i16 v = v >= -32768 && v <= 32767
+(* a value the format can hold and a reader can return: the round-trip domain *)
+let cg_consistent (g : rcg) : bool =
+  let n = List.length g.rcomps in
+  n > 0 && List.for_all in_i16 g.rbbox && List.length g.rbbox = 4 &&
+  List.for_all (fun x -> x) (List.mapi (fun i c ->
+      let words = c.rf land 1 <> 0 and xy = c.rf land 2 <> 0 in
+      let arg_ok a = match a with
+        | RB v -> (not words) && (not xy) && v >= 0 && v <= 255
+        | Rb v -> (not words) && xy && v >= -128 && v <= 127
+        | RW v -> words && (not xy) && v >= 0 && v <= 65535
+        | Rw v -> words && xy && in_i16 v in
+      let form = if c.rf land 0x8 <> 0 then 1 else if c.rf land 0x40 <> 0 then 2 else if c.rf land 0x80 <> 0 then 3 else 0 in
+      let sc_ok = match c.rs with
+        | RNone -> form = 0 | RS a -> form = 1 && in_i16 a | RX (a, b) -> form = 2 && in_i16 a && in_i16 b
+        | RM (a, b, c, d) -> form = 3 && in_i16 a && in_i16 b && in_i16 c && in_i16 d in
+      c.rf land (lnot 0x1fef) = 0 && c.rg >= 0 && c.rg <= 65535 && arg_ok c.ra1 && arg_ok c.ra2 && sc_ok &&
+      ((c.rf land 0x20 <> 0) = (i < n - 1))) g.rcomps)
+(* the size of what a writer emits for the value as it is typed (argument variants, scale form) *)
+let cg_size (g : rcg) : int =
+  10 + List.fold_left (fun a c ->
+      let asz = function RB _ | Rb _ -> 1 | RW _ | Rw _ -> 2 in
+      a + 4 + asz c.ra1 + asz c.ra2 + (match c.rs with RNone -> 0 | RS _ -> 2 | RX _ -> 4 | RM _ -> 8)) 0 g.rcomps
+  + (if cg_any_instr g then 2 + String.length g.rinstr else 0)
+let cg_norm (g : rcg) : rcg = if cg_any_instr g then g else { g with rinstr = "" }
+
+(* cg|MODE|BBOX|COMPS|INSTR *)
+let judge_cg (p : string array) (impl : string) : (string * string) option =
+  let g = { rbbox = nl_parse p.(2); rcomps = rcomps_of_string p.(3); rinstr = raw_of_str p.(4) } in
+  let ip = kvp impl in
+  let get k = try Some (List.assoc k ip) with Not_found -> None in
+  let any = cg_any_instr g and ilen = String.length g.rinstr in
+  match get "w" with
+  | None -> None
+  | Some w when not (ishex w) ->
+    if any && ilen > 65535 then (if w = "err:BadValue" then None else Some ("refusal", "instruction length beyond 16 bits refused with " ^ w))
+    else Some ("refusal", "a composite glyph within the format limits was not written: " ^ w)
+  | Some w ->
+    let wr = raw_of_hex w in
+    if any && ilen > 65535 then
+      Some ("truncation", Printf.sprintf "%d instruction bytes do not fit instructionLength but the glyph was written" ilen)
+    else if String.length wr <> cg_size g then begin
+      let base = cg_size g - (if any then 2 + ilen else 0) in
+      if String.length wr = base || String.length wr = base + 2 + ilen then
+        Some ("instructions", Printf.sprintf "%d bytes written, %d expected: instructionLength and instructions are written iff some component carries WE_HAVE_INSTRUCTIONS (here: %b)"
+                (String.length wr) (cg_size g) any)
+      else
+        Some ("truncation", Printf.sprintf "%d bytes written, the fields of the value take %d: an argument or a scale was not written in the width of its type"
+                (String.length wr) (cg_size g))
+    end
+    else if not (cg_consistent g) then None
+    else if wr <> ref_cg_encode g then Some ("roundtrip", "written bytes are not the encoding of the glyph: expected " ^ hex_of_raw (ref_cg_encode g))
+    else if get "r" <> Some ("ok:" ^ rcg_show (cg_norm g)) then
+      Some ("roundtrip", "read(write(g)) <> g: " ^ (match get "r" with Some r -> r | None -> "?"))
+    else if get "rem" <> Some "3" then Some ("consumed", "the reader did not stop at the end of the written glyph")
+    else None
+
+(* the composite branch of glyphrd|MODE|HEX *)
+let judge_cgrd (hexin : string) (impl : string) : (string * string) option =
+  let ip = kvp impl in
+  let get k = try Some (List.assoc k ip) with Not_found -> None in
+  let reference = ref_cg_decode (raw_of_hex hexin) in
+  match get "r" with
+  | Some r when starts_with "ok:C/" r ->
+    (match reference with
+     | None -> Some ("decode", "a composite glyph was read where the reference decoder finds none")
+     | Some (g, n) ->
+       if r <> "ok:" ^ rcg_show g then Some ("decode", "Glyph::read differs from the reference decoding " ^ rcg_show g)
+       else if get "n" <> Some (string_of_int n) then Some ("consumed", Printf.sprintf "the glyph occupies %d bytes, the reader consumed %s" n (match get "n" with Some x -> x | None -> "?"))
+       else match get "w" with
+         | None -> None
+         | Some w when not (ishex w) -> Some ("refusal", "a parsed composite glyph was not written: " ^ w)
+         | Some w ->
+           if raw_of_hex w <> ref_cg_encode g then Some ("roundtrip", "written bytes are not the encoding of the parsed glyph " ^ hex_of_raw (ref_cg_encode g))
+           else if get "r2" <> Some r then Some ("stability", "parse(write(parse(b))) <> parse(b): " ^ (match get "r2" with Some x -> x | None -> "?"))
+           else if get "rem2" <> Some "3" then Some ("consumed", "the re-read did not stop at the end of the written glyph")
+           else None)
+  | Some r when starts_with "err:" r ->
+    (match reference with
+     | Some _ -> Some ("refusal", "a well-formed composite glyph was refused by the reader: " ^ r)
+     | None -> None)
+  | _ -> None
+
+(* ================================================================ cmap sub-tables *)
+type rst =
+  | R0 of int * int list
+  | R2 of int * int list * int
+  | R4 of int * int list * int list * int list * int list * int list
+  | R6 of int * int * int list
+  | R10 of int * int * int list
+  | R12 of int * (int * int * int) list
+
+let groups_parse (s : string) : (int * int * int) list =
+  if s = "-" then [] else
+    List.concat (List.map (fun it ->
+        let (g, k) = match String.index_opt it '*' with
+          | Some i -> (String.sub it 0 i, int_of_string (sub_after it (i + 1)))
+          | None -> (it, 1) in
+        match List.map int_of_string (split_on '_' g) with
+        | [a; b; c] -> List.init k (fun _ -> (a, b, c))
+        | _ -> failwith ("group " ^ it)) (split_on ',' s))
+let groups_show (gs : (int * int * int) list) : string = rle (List.map (fun (a, b, c) -> Printf.sprintf "%d_%d_%d" a b c) gs)
+let rst_of_string (s : string) : rst =
+  match split_on ':' s with
+  | ["0"; l; g] -> R0 (int_of_string l, nl_parse g)
+  | ["2"; l; k; n] -> R2 (int_of_string l, nl_parse k, int_of_string n)
+  | ["4"; l; e; st; d; r; g] -> R4 (int_of_string l, nl_parse e, nl_parse st, nl_parse d, nl_parse r, nl_parse g)
+  | ["6"; l; f; g] -> R6 (int_of_string l, int_of_string f, nl_parse g)
+  | ["10"; l; f; g] -> R10 (int_of_string l, int_of_string f, nl_parse g)
+  | ["12"; l; g] -> R12 (int_of_string l, groups_parse g)
+  | _ -> failwith ("ST " ^ (if String.length s > 40 then String.sub s 0 40 else s))
+let rst_show (st : rst) : string =
+  let i = string_of_int in
+  match st with
+  | R0 (l, g) -> String.concat ":" ["0"; i l; nl_show g]
+  | R2 (l, k, n) -> String.concat ":" ["2"; i l; nl_show k; i n]
+  | R4 (l, e, s, d, r, g) -> String.concat ":" ["4"; i l; nl_show e; nl_show s; nl_show d; nl_show r; nl_show g]
+  | R6 (l, f, g) -> String.concat ":" ["6"; i l; i f; nl_show g]
+  | R10 (l, f, g) -> String.concat ":" ["10"; i l; i f; nl_show g]
+  | R12 (l, g) -> String.concat ":" ["12"; i l; groups_show g]
+let rec pad_ints (n : int) (l : int list) : int list =
+  if n = 0 then [] else match l with [] -> 0 :: pad_ints (n - 1) [] | x :: r -> x :: pad_ints (n - 1) r
+(* CmapSubtable::to_owned: format 0 becomes a 256 byte array, format 2 has no owned form *)
+let rst_to_owned (st : rst) : rst option =
+  match st with R0 (l, g) -> Some (R0 (l, pad_ints 256 g)) | R2 _ -> None | _ -> Some st
+let rst_wf (st : rst) : bool =
+  match st with
+  | R0 (_, g) -> List.length g = 256
+  | R4 (_, e, s, d, r, _) -> let n = List.length s in List.length e = n && List.length d = n && List.length r = n
+  | R2 _ -> false
+  | _ -> true
+let rst_size (st : rst) : int =
+  let n = List.length in
+  match st with
+  | R0 (_, g) -> 6 + n g
+  | R2 _ -> 0
+  | R4 (_, e, s, d, r, g) -> 16 + 2 * (n e + n s + n d + n r + n g)
+  | R6 (_, _, g) -> 10 + 2 * n g
+  | R10 (_, _, g) -> 20 + 2 * n g
+  | R12 (_, g) -> 16 + 12 * n g
+(* every count and length of the encoding fits its field *)
+let rst_fits (st : rst) : bool =
+  match st with
+  | R0 _ -> rst_size st <= 65535
+  | R2 _ -> false
+  | R4 (_, _, s, _, _, _) -> rst_size st <= 65535 && 2 * List.length s <= 65535
+  | R6 (_, _, g) -> rst_size st <= 65535 && List.length g <= 65535
+  | R10 (_, _, g) -> rst_size st <= 0xffffffff && List.length g <= 0xffffffff
+  | R12 (_, g) -> rst_size st <= 0xffffffff && List.length g <= 0xffffffff
+
+(* ---- model values *)
+let st_of_rst (r : rst) : subtable =
+  match r with
+  | R0 (l, g) -> F0 (zi l, zs g)
+  | R2 _ -> failwith "format 2 value"
+  | R4 (l, e, s, d, r, g) -> F4 (zi l, zs e, zs s, zs d, zs r, zs g)
+  | R6 (l, f, g) -> F6 (zi l, zi f, zs g)
+  | R10 (l, f, g) -> F10 (zi l, zi f, zs g)
+  | R12 (l, g) -> F12 (zi l, List.map (fun (a, b, c) -> { g_start = zi a; g_end = zi b; g_gid = zi c }) g)
+let rst_of_st (st : subtable) : rst =
+  match st with
+  | F0 (l, g) -> R0 (z_to_int l, ints g)
+  | F2 (l, k, h, _) -> R2 (z_to_int l, ints k, List.length h)
+  | F4 (l, e, s, d, r, g) -> R4 (z_to_int l, ints e, ints s, ints d, ints r, ints g)
+  | F6 (l, f, g) -> R6 (z_to_int l, z_to_int f, ints g)
+  | F10 (l, f, g) -> R10 (z_to_int l, z_to_int f, ints g)
+  | F12 (l, g) -> R12 (z_to_int l, List.map (fun x -> (z_to_int x.g_start, z_to_int x.g_end, z_to_int x.g_gid)) g)
+let st_show_m (st : subtable) : string = rst_show (rst_of_st st)
+let write_via (owned : bool) (st : subtable) : z list outcome option =
+  if owned then (match to_owned st with Some o -> Some (sub_write o) | None -> None) else Some (sub_write st)
+let cms_model (owned : bool) (stext : string) : string =
+  let r = rst_of_string stext in
+  if rst_size r > model_limit && rst_fits r then "n/a:big" else
+  match write_via owned (st_of_rst r) with
+  | Some (Ok b) -> "w=" ^ hex_of_bytes b ^ ";r=" ^ out_s st_show_m (parse (b @ trail_z))
+  | Some w -> "w=" ^ w_s w
+  | None -> "w=none"
+let cmsrd_model (owned : bool) (d : z list) : string =
+  match parse d with
+  | Ok st ->
+    let r = st_show_m st in
+    (match write_via owned st with
+     | None -> "r=ok:" ^ r ^ ";w=none"
+     | Some (Ok b) ->
+       (match parse (b @ trail_z) with
+        | Ok st2 ->
+          let w2 = match write_via owned st2 with
+            | Some (Ok b2) when b2 = b -> "same"
+            | Some w2 -> w_s w2
+            | None -> "none" in
+          "r=ok:" ^ r ^ ";w=" ^ hex_of_bytes b ^ ";r2=ok:" ^ st_show_m st2 ^ ";w2=" ^ w2
+        | o -> "r=ok:" ^ r ^ ";w=" ^ hex_of_bytes b ^ ";r2=" ^ out_s st_show_m o)
+     | Some w -> "r=ok:" ^ r ^ ";w=" ^ w_s w)
+  | o -> "r=" ^ out_s st_show_m o
+
+(* ---- reference: OpenType cmap chapter.  A reader takes: format 0 with length >= 262; format 4 with
+   an even segCountX2, length >= 16 + 8 segCount and an even remainder (the glyphIdArray is what the
+   length leaves); formats 6 / 10 / 12 by their counts (reserved = 0); format 2 by its keys *)
+let ref_st_decode (s : string) (pos : int) : rst option =
+  try
+    need s pos 2;
+    let u16s at n = List.init n (fun i -> gu16 s (at + 2 * i)) in
+    match gu16 s pos with
+    | 0 ->
+      need s pos 6;
+      if gu16 s (pos + 2) < 262 then None
+      else (need s (pos + 6) 256; Some (R0 (gu16 s (pos + 4), List.init 256 (fun i -> gu8 s (pos + 6 + i)))))
+    | 2 ->
+      need s pos 518;
+      let keys = u16s (pos + 6) 256 in
+      let mx = List.fold_left (fun a k -> max a (k / 8)) 0 keys in
+      need s (pos + 518) (8 * (mx + 1));
+      Some (R2 (gu16 s (pos + 4), keys, mx + 1))
+    | 4 ->
+      need s pos 14;
+      let length = gu16 s (pos + 2) and x2 = gu16 s (pos + 6) in
+      if x2 land 1 <> 0 then None else begin
+        let n = x2 / 2 in
+        need s (pos + 14) (8 * n + 2);
+        let ends = u16s (pos + 14) n in
+        let starts = u16s (pos + 16 + 2 * n) n in
+        let deltas = List.map (sx 16) (u16s (pos + 16 + 4 * n) n) in
+        let ros = u16s (pos + 16 + 6 * n) n in
+        let base = 16 + 8 * n in
+        if length < base || (length - base) land 1 <> 0 then None else begin
+          let k = (length - base) / 2 in
+          need s (pos + base) (2 * k);
+          Some (R4 (gu16 s (pos + 4), ends, starts, deltas, ros, u16s (pos + base) k))
+        end
+      end
+    | 6 ->
+      need s pos 10;
+      let n = gu16 s (pos + 8) in
+      need s (pos + 10) (2 * n);
+      Some (R6 (gu16 s (pos + 4), gu16 s (pos + 6), u16s (pos + 10) n))
+    | 10 ->
+      need s pos 20;
+      if gu16 s (pos + 2) <> 0 then None else begin
+        let n = gu32 s (pos + 16) in
+        need s (pos + 20) (2 * n);
+        Some (R10 (gu32 s (pos + 8), gu32 s (pos + 12), u16s (pos + 20) n))
+      end
+    | 12 ->
+      need s pos 16;
+      if gu16 s (pos + 2) <> 0 then None else begin
+        let n = gu32 s (pos + 12) in
+        need s (pos + 16) (12 * n);
+        Some (R12 (gu32 s (pos + 8), List.init n (fun i ->
+            let a = pos + 16 + 12 * i in (gu32 s a, gu32 s (a + 4), gu32 s (a + 8)))))
+      end
+    | _ -> None
+  with Short -> None
+let rec pow2_le (n : int) (p : int) : int = if 2 * p <= n then pow2_le n (2 * p) else p
+let rec ilog2 (n : int) : int = if n <= 1 then 0 else 1 + ilog2 (n / 2)
+(* the encoding: every length / count field is the true size; searchRange = 2 * 2^floor(log2 segCount),
+   entrySelector = log2(searchRange / 2), rangeShift = 2 * segCount - searchRange (all 0 without
+   segments); reservedPad = 0 *)
+let ref_st_encode (st : rst) : string =
+  let b = Buffer.create 256 in
+  let size = rst_size st in
+  (match st with
+   | R0 (l, g) -> pu16 b 0; pu16 b size; pu16 b l; List.iter (pu8 b) g
+   | R2 _ -> ()
+   | R4 (l, e, s, d, r, g) ->
+     let n = List.length s in
+     let sr = if n = 0 then 0 else 2 * pow2_le n 1 in
+     pu16 b 4; pu16 b size; pu16 b l; pu16 b (2 * n); pu16 b sr; pu16 b (ilog2 (sr / 2)); pu16 b (2 * n - sr);
+     List.iter (pu16 b) e; pu16 b 0; List.iter (pu16 b) s; List.iter (pu16 b) d; List.iter (pu16 b) r; List.iter (pu16 b) g
+   | R6 (l, f, g) -> pu16 b 6; pu16 b size; pu16 b l; pu16 b f; pu16 b (List.length g); List.iter (pu16 b) g
+   | R10 (l, f, g) -> pu16 b 10; pu16 b 0; pu32 b size; pu32 b l; pu32 b f; pu32 b (List.length g); List.iter (pu16 b) g
+   | R12 (l, g) ->
+     pu16 b 12; pu16 b 0; pu32 b size; pu32 b l; pu32 b (List.length g);
+     List.iter (fun (x, y, z) -> pu32 b x; pu32 b y; pu32 b z) g);
+  Buffer.contents b
+(* "nothing truncated": the length and count fields of written bytes against the true sizes *)
+let st_fields_check (st : rst) (w : string) : string option =
+  let n = String.length w in
+  let bad what field true_ = Some (Printf.sprintf "%s field is %d, the true value is %d" what field true_) in
+  try
+    match st with
+    | R0 _ -> need w 0 4; if gu16 w 2 <> n then bad "length" (gu16 w 2) n else None
+    | R4 (_, _, s, _, _, _) ->
+      need w 0 8;
+      if gu16 w 2 <> n then bad "length" (gu16 w 2) n
+      else if gu16 w 6 <> 2 * List.length s then bad "segCountX2" (gu16 w 6) (2 * List.length s) else None
+    | R6 (_, _, g) ->
+      need w 0 10;
+      if gu16 w 2 <> n then bad "length" (gu16 w 2) n
+      else if gu16 w 8 <> List.length g then bad "entryCount" (gu16 w 8) (List.length g) else None
+    | R10 (_, _, g) ->
+      need w 0 20;
+      if gu32 w 4 <> n then bad "length" (gu32 w 4) n
+      else if gu32 w 16 <> List.length g then bad "numChars" (gu32 w 16) (List.length g) else None
+    | R12 (_, g) ->
+      need w 0 16;
+      if gu32 w 4 <> n then bad "length" (gu32 w 4) n
+      else if gu32 w 12 <> List.length g then bad "numGroups" (gu32 w 12) (List.length g) else None
+    | R2 _ -> None
+  with Short -> Some "the written sub-table is shorter than its header"
+
+(* cms|MODE|b/o|ST *)
+let judge_cms (p : string array) (impl : string) : (string * string) option =
+  let ip = kvp impl in
+  let get k = try Some (List.assoc k ip) with Not_found -> None in
+  let st0 = rst_of_string p.(3) in
+  match (if p.(2) = "o" then rst_to_owned st0 else Some st0) with
+  | None -> None
+  | Some st ->
+    match get "w" with
+    | None -> None
+    | Some w when ishex w ->
+      let wr = raw_of_hex w in
+      (match st_fields_check st wr with
+       | Some msg -> Some ("truncation", "written with a field that is not the true size: " ^ msg)
+       | None ->
+         if not (rst_fits st) then Some ("truncation", Printf.sprintf "a sub-table of %d bytes does not fit its length / count fields but was written" (rst_size st))
+         else if not (rst_wf st) then None
+         else if wr <> ref_st_encode st then Some ("roundtrip", "written bytes are not the encoding of the sub-table")
+         else if get "r" <> Some ("ok:" ^ rst_show st) then Some ("roundtrip", "read(write(st)) <> st")
+         else None)
+    | Some w ->
+      if rst_fits st then Some ("refusal", Printf.sprintf "a sub-table of %d bytes fits its fields but was refused: %s" (rst_size st) w)
+      else if w <> "err:BadValue" then Some ("refusal", "too wide a sub-table refused with " ^ w ^ ", not BadValue")
+      else None
+
+(* cmsrd|MODE|b/o|HEX *)
+let judge_cmsrd (owned : bool) (hexin : string) (impl : string) : (string * string) option =
+  let ip = kvp impl in
+  let get k = try Some (List.assoc k ip) with Not_found -> None in
+  let reference = ref_st_decode (raw_of_hex hexin) 0 in
+  match get "r" with
+  | Some r when starts_with "ok:" r ->
+    (match reference with
+     | None -> Some ("decode", "a sub-table was read where the reference decoder finds none")
+     | Some st ->
+       if r <> "ok:" ^ rst_show st then Some ("decode", "CmapSubtable::read differs from the reference decoding")
+       else begin
+         let target = if owned then rst_to_owned st else Some st in
+         match get "w", target with
+         | None, _ -> None
+         | Some "none", None -> None
+         | Some "none", Some _ -> Some ("refusal", "to_owned returned None for a format other than 2")
+         | Some w, None -> Some ("refusal", "format 2 has no owned form, yet: " ^ w)
+         | Some w, Some t when not (ishex w) ->
+           (match t with
+            | R2 _ -> if w = "err:NotImplemented" then None else Some ("refusal", "format 2: " ^ w)
+            | _ ->
+              if rst_fits t then Some ("refusal", "a parsed sub-table that fits its fields was not written: " ^ w)
+              else if w = "err:BadValue" then None else Some ("refusal", "too wide a sub-table refused with " ^ w))
+         | Some w, Some t ->
+           let wr = raw_of_hex w in
+           (match st_fields_check t wr with
+            | Some msg -> Some ("truncation", "written with a field that is not the true size: " ^ msg)
+            | None ->
+              if not (rst_fits t) then Some ("truncation", "a parsed sub-table that does not fit its fields was written")
+              else if wr <> ref_st_encode t then Some ("roundtrip", "written bytes are not the encoding of the parsed sub-table")
+              else if get "r2" <> Some ("ok:" ^ rst_show t) then Some ("stability", "parse(write(parse(b))) <> parse(b)")
+              else if get "w2" <> Some "same" then Some ("stability", "write(parse(write(st))) <> write(st)")
+              else None)
+       end)
+  | Some r when starts_with "err:" r ->
+    (match reference with
+     | Some _ -> Some ("refusal", "a sub-table the reference decoder reads was refused: " ^ r)
+     | None -> None)
+  | _ -> None
+
+(* ================================================================ the cmap table *)
+let recs_parse (s : string) : (int * int * string) list =
+  if s = "." then [] else
+    List.concat (List.map (fun r ->
+        let (r, k) = match String.index_opt r '^' with
+          | Some i -> (String.sub r 0 i, int_of_string (sub_after r (i + 1)))
+          | None -> (r, 1) in
+        match split_on '/' r with
+        | [p; e; st] -> List.init k (fun _ -> (int_of_string p, int_of_string e, st))
+        | _ -> failwith "REC") (split_on '+' s))
+let recs_show (l : (int * int * int * rst) list) : string =
+  if l = [] then "." else String.concat "+" (List.map (fun (p, e, o, st) -> Printf.sprintf "%d/%d/%d/%s" p e o (rst_show st)) l)
+
+(* model: Cmap::read and every record's sub-table; the error carries the index of the record *)
+let cmap_read_m (d : z list) : string * (enc_rec * subtable) list option =
+  match cmap_read_all d with
+  | Ok l ->
+    ("ok:" ^ recs_show (List.map (fun (r, st) -> (z_to_int r.er_platform, z_to_int r.er_encoding, z_to_int r.er_offset, rst_of_st st)) l), Some l)
+  | o ->
+    (match parse_cmap d with
+     | Ok recs ->
+       let rec first i = function
+         | [] -> i
+         | r :: rest -> (match parse (slice_from d r.er_offset) with Ok _ -> first (i + 1) rest | _ -> i) in
+       (out_s (fun _ -> "") o ^ "@" ^ string_of_int (first 0 recs), None)
+     | _ -> (out_s (fun _ -> "") o, None))
+let crec_size (recs : (int * int * rst) list) : int = List.fold_left (fun a (_, _, st) -> a + 8 + rst_size st) 4 recs
+let cmapv_model (recs : (int * int * string) list) : string =
+  let rr = List.map (fun (p, e, s) -> (p, e, rst_of_string s)) recs in
+  if List.length rr <= 65535 && crec_size rr > model_limit then "n/a:big" else
+  let crecs = List.map (fun (p, e, st) ->
+      match to_owned (st_of_rst st) with
+      | Some o -> { cr_platform = zi p; cr_encoding = zi e; cr_sub = o }
+      | None -> failwith "format 2 record") rr in
+  match cmap_write crecs with
+  | Ok b -> "w=" ^ hex_of_bytes b ^ ";r=" ^ fst (cmap_read_m b)
+  | w -> "w=" ^ w_s w
+let cmaprd_model (d : z list) : string =
+  let (r, l) = cmap_read_m d in
+  match l with
+  | None -> "r=" ^ r
+  | Some l ->
+    (match owned_records l with
+     | None -> "r=" ^ r ^ ";w=none"
+     | Some crecs ->
+       (match cmap_write crecs with
+        | Ok b -> "r=" ^ r ^ ";w=" ^ hex_of_bytes b ^ ";r2=" ^ fst (cmap_read_m b)
+        | w -> "r=" ^ r ^ ";w=" ^ w_s w))
+
+(* reference: header (version 0, numTables), 8-byte encoding records, sub-tables at their offsets *)
+let ref_cmap_decode (s : string) : (int * int * int * rst) list option =
+  try
+    need s 0 4;
+    if gu16 s 0 <> 0 then None else begin
+      let n = gu16 s 2 in
+      need s 4 (8 * n);
+      let rec go i acc =
+        if i = n then Some (List.rev acc) else begin
+          let a = 4 + 8 * i in
+          let off = gu32 s (a + 4) in
+          match (if off > String.length s then None else ref_st_decode s off) with
+          | Some st -> go (i + 1) ((gu16 s a, gu16 s (a + 2), off, st) :: acc)
+          | None -> None
+        end in
+      go 0 []
+    end
+  with Short -> None
+(* header only: Some n when the header and the n records are there *)
+let ref_cmap_header (s : string) : int option =
+  try need s 0 4; if gu16 s 0 <> 0 then None else (need s 4 (8 * gu16 s 2); Some (gu16 s 2)) with Short -> None
+let ref_cmap_offsets (recs : (int * int * rst) list) : int list =
+  let n = List.length recs in
+  let (_, offs) = List.fold_left (fun (pos, acc) (_, _, st) -> (pos + rst_size st, pos :: acc)) (4 + 8 * n, []) recs in
+  List.rev offs
+let ref_cmap_fits (recs : (int * int * rst) list) : bool =
+  List.length recs <= 65535 && List.for_all (fun (_, _, st) -> rst_fits st) recs &&
+  List.for_all (fun o -> o <= 0xffffffff) (ref_cmap_offsets recs)
+let ref_cmap_encode (recs : (int * int * rst) list) : string =
+  let b = Buffer.create 1024 in
+  pu16 b 0; pu16 b (List.length recs);
+  List.iter2 (fun (p, e, _) o -> pu16 b p; pu16 b e; pu32 b o) recs (ref_cmap_offsets recs);
+  List.iter (fun (_, _, st) -> Buffer.add_string b (ref_st_encode st)) recs;
+  Buffer.contents b
+(* the written table against the value: numTables and every offset field are the true ones *)
+let cmap_fields_check (recs : (int * int * rst) list) (w : string) : string option =
+  try
+    need w 0 4;
+    let n = List.length recs in
+    if gu16 w 2 <> n then Some (Printf.sprintf "numTables field is %d, %d records were given" (gu16 w 2) n)
+    else begin
+      need w 4 (8 * n);
+      let offs = ref_cmap_offsets recs in
+      let rec go i = function
+        | [] -> None
+        | o :: r -> if gu32 w (4 + 8 * i + 4) <> o then Some (Printf.sprintf "offset field of record %d is %d, its sub-table starts at %d" i (gu32 w (4 + 8 * i + 4)) o) else go (i + 1) r in
+      go 0 offs
+    end
+  with Short -> Some "the written table is shorter than its header"
+
+(* cmapv|MODE|RECS *)
+let judge_cmapv (p : string array) (impl : string) : (string * string) option =
+  let ip = kvp impl in
+  let get k = try Some (List.assoc k ip) with Not_found -> None in
+  let recs = List.filter_map (fun (pl, e, s) -> match rst_to_owned (rst_of_string s) with Some st -> Some (pl, e, st) | None -> None) (recs_parse p.(2)) in
+  let fits = ref_cmap_fits recs in
+  let wf = List.for_all (fun (_, _, st) -> rst_wf st) recs in
+  match get "w" with
+  | None -> None
+  | Some w when ishex w ->
+    let wr = raw_of_hex w in
+    if not fits then Some ("truncation", "a cmap table whose record count, an offset or a sub-table does not fit its field was written")
+    else (match cmap_fields_check recs wr with
+        | Some msg -> Some ("offset", msg)
+        | None ->
+          if not wf then None
+          else if wr <> ref_cmap_encode recs then Some ("roundtrip", "written bytes are not the encoding of the table")
+          else begin
+            let expect = "ok:" ^ recs_show (List.map2 (fun (pl, e, st) o -> (pl, e, o, st)) recs (ref_cmap_offsets recs)) in
+            if get "r" <> Some expect then Some ("roundtrip", "read(write(cmap)) <> cmap") else None
+          end)
+  | Some w ->
+    if fits then Some ("refusal", "a cmap table that fits its fields was refused: " ^ w)
+    else if w <> "err:BadValue" then Some ("refusal", "too wide a table refused with " ^ w) else None
+
+(* cmaprd|MODE|HEX *)
+let judge_cmaprd (hexin : string) (impl : string) : (string * string) option =
+  let ip = kvp impl in
+  let get k = try Some (List.assoc k ip) with Not_found -> None in
+  let s = raw_of_hex hexin in
+  let reference = ref_cmap_decode s in
+  match get "r" with
+  | Some r when starts_with "ok:" r ->
+    (match reference with
+     | None -> Some ("decode", "a cmap table was read where the reference decoder finds none")
+     | Some l ->
+       if r <> "ok:" ^ recs_show l then Some ("decode", "Cmap::read + sub-tables differ from the reference decoding")
+       else begin
+         let owned = List.map (fun (p, e, _, st) -> (p, e, rst_to_owned st)) l in
+         let has2 = List.exists (fun (_, _, o) -> o = None) owned in
+         match get "w" with
+         | None -> None
+         | Some "none" -> if has2 then None else Some ("refusal", "no owned form although no sub-table is format 2")
+         | Some w when has2 -> Some ("refusal", "format 2 has no owned form, yet: " ^ (if String.length w > 30 then String.sub w 0 30 else w))
+         | Some w ->
+           let recs = List.map (fun (p, e, o) -> match o with Some st -> (p, e, st) | None -> assert false) owned in
+           let fits = ref_cmap_fits recs in
+           if not (ishex w) then
+             (if fits then Some ("refusal", "a parsed cmap table that fits its fields was not written: " ^ w)
+              else if w = "err:BadValue" then None else Some ("refusal", "refused with " ^ w))
+           else begin
+             let wr = raw_of_hex w in
+             if not fits then Some ("truncation", "a parsed cmap table that does not fit its fields was written")
+             else match cmap_fields_check recs wr with
+               | Some msg -> Some ("offset", msg)
+               | None ->
+                 if wr <> ref_cmap_encode recs then Some ("roundtrip", "written bytes are not the encoding of the parsed table (every record with its own copy of the sub-table)")
+                 else begin
+                   let expect = "ok:" ^ recs_show (List.map2 (fun (pl, e, st) o -> (pl, e, o, st)) recs (ref_cmap_offsets recs)) in
+                   if get "r2" <> Some expect then Some ("stability", "parse(write(parse(b))) is not parse(b) with the new offsets") else None
+                 end
+           end
+       end)
+  | Some r when starts_with "err:" r ->
+    (* an error of a sub-table is reported as err:E@index; a header the reference reads must not be refused *)
+    (match reference with
+     | Some _ -> Some ("refusal", "a cmap table the reference decoder reads was refused: " ^ r)
+     | None ->
+       if not (String.contains r '@') && ref_cmap_header s <> None then Some ("refusal", "the cmap header was refused: " ^ r) else None)
+  | _ -> None
+
+(* filec|PATH: items=N#KIND HEX -> RESULT ## ... *)
+let filec_items (impl : string) : (string * string * string) list option =
+  match String.index_opt impl '#' with
+  | Some i when starts_with "items=" impl ->
+    let body = sub_after impl (i + 1) in
+    let items = if body = "" then [] else
+        List.filter (fun x -> x <> "") (List.map String.trim (String.split_on_char '#' body)) in
+    Some (List.filter_map (fun item ->
+        match String.split_on_char ' ' item with
+        | [k; h; "->"; out] -> Some (k, h, out)
+        | _ -> Some ("?", "", item)) items)
+  | _ -> None
+
 let pwp (r1 : 'a outcome) (show : 'a -> string) (write : 'a -> z list outcome) (reread : z list -> string) : string =
   match r1 with
   | Err e -> "r=" ^ err_s e | Panic -> "r=panic" | OOB -> "r=oob"
@@ -357,7 +1108,7 @@ let run (input : string) : string =
   | "glyphrd" ->
     let m = mode_of p.(1) in
     (match glyph_read m (table_ctxt (bytes_of_hex p.(2))) with
-     | Ok (None, _) -> "r=composite"
+     | Ok (None, _) -> cgrd_model m (bytes_of_hex p.(2))
      | Ok (Some g, _) ->
        (match simple_glyph_write g with
         | Ok b -> "r=ok:" ^ glyph_show g ^ ";w=" ^ hex_of_bytes b ^ ";r2=" ^ glyph_read_show m b
@@ -367,6 +1118,12 @@ let run (input : string) : string =
   | "pascal" -> "w=" ^ w_s (pascal_write (parse_str p.(1)))
   | "file" -> "n/a"
   | "filed" -> "n/a"
+  | "filec" -> "n/a"
+  | "cg" -> cg_model (mode_of p.(1)) p.(2) p.(3) p.(4)
+  | "cms" -> cms_model (p.(2) = "o") p.(3)
+  | "cmsrd" -> cmsrd_model (p.(2) = "o") (bytes_of_hex p.(3))
+  | "cmapv" -> cmapv_model (recs_parse p.(2))
+  | "cmaprd" -> cmaprd_model (bytes_of_hex p.(2))
   | "dict" -> dict_pwp_model p.(1) (bytes_of_hex p.(2))
   | "dictw" ->
     let k = kind_of p.(1) in
@@ -638,7 +1395,44 @@ let judge (input : string) (impl : string) (model : string) : verdict =
          let expect = "ok:" ^ glyph_norm (String.concat "/" [p.(2); (if p.(3) = "" then "-" else p.(3)); hex_of_bytes (parse_str p.(4)); p.(5)]) in
          if get "r" ip <> Some expect then viol "roundtrip" "glyph: read(write(v)) <> v" else same ()
        | _ -> same ())
-    | "glyphrd" when model = "r=composite" -> Agree   (* composite glyphs are not modelled *)
+    | "glyphrd" when starts_with "r=ok:C/" impl || starts_with "r=ok:C/" model
+                     || (String.length p.(2) >= 2 && p.(2).[0] >= '8' && p.(2) <> "-") ->
+      (* numberOfContours < 0: a composite glyph *)
+      (match judge_cgrd p.(2) impl with Some (c, w) -> viol c w | None -> same ())
+    | "cg" -> (match judge_cg p impl with Some (c, w) -> viol c w | None -> same ())
+    | "cms" ->
+      (match judge_cms p impl with
+       | Some (c, w) -> viol c w
+       | None -> if model = "n/a:big" then Agree else same ())
+    | "cmsrd" -> (match judge_cmsrd (p.(2) = "o") p.(3) impl with Some (c, w) -> viol c w | None -> same ())
+    | "cmapv" ->
+      (match judge_cmapv p impl with
+       | Some (c, w) -> viol c w
+       | None -> if model = "n/a:big" then Agree else same ())
+    | "cmaprd" -> (match judge_cmaprd p.(2) impl with Some (c, w) -> viol c w | None -> same ())
+    | "filec" ->
+      (match filec_items impl with
+       | None -> if impl = "items=nofile" then Agree else Mismatch ("fixture items: " ^ impl)
+       | Some items ->
+         List.fold_left (fun acc (k, h, out) ->
+             match acc with
+             | Violation _ -> acc
+             | _ ->
+               let small = String.length h <= 2 * model_limit in
+               let (j, mdl) = match k with
+                 | "cg" -> (judge_cgrd h out, if small then Some (cgrd_model Debug (bytes_of_hex h)) else None)
+                 | "cmsb" -> (judge_cmsrd false h out, if small then Some (cmsrd_model false (bytes_of_hex h)) else None)
+                 | "cmso" -> (judge_cmsrd true h out, if small then Some (cmsrd_model true (bytes_of_hex h)) else None)
+                 | "cmap" -> (judge_cmaprd h out, if small then Some (cmaprd_model (bytes_of_hex h)) else None)
+                 | "cmsbbig" | "cmsobig" ->
+                   ((if out = "stable" then None else Some ("stability", "sub-table of " ^ h ^ " bytes: parse-write-parse " ^ out)), None)
+                 | _ -> (Some ("format", "unparsable item " ^ out), None) in
+               (match j with
+                | Some (c, w) -> Violation (c, p.(1) ^ " " ^ k ^ " " ^ (if String.length h > 80 then String.sub h 0 80 ^ ".." else h) ^ ": " ^ w)
+                | None ->
+                  (match mdl with
+                   | Some m when m <> out -> Mismatch ("fixture " ^ k ^ " " ^ (if String.length h > 80 then String.sub h 0 80 ^ ".." else h) ^ ": implementation and model differ")
+                   | _ -> acc))) Agree items)
     | "glyphrd" ->
       (match get "r" ip, get "w" ip, get "r2" ip with
        | Some r, Some w, Some r2 when starts_with "ok:" r && is_bytes w ->
@@ -691,7 +1485,14 @@ let judge (input : string) (impl : string) (model : string) : verdict =
 let tag (input : string) (out : string) : string =
   let p = split_on '|' input in
   let k = List.hd p in
-  let sub = match k with "lay" | "rd" | "file" | "dict" | "dictw" -> "-" ^ List.nth p 1 | "filed" -> "-" ^ Filename.basename (List.nth p 1) | _ -> "" in
+  let st_fmt s = match String.index_opt s ':' with Some i -> "-f" ^ String.sub s 0 i | None -> "" in
+  let sub = match k with
+    | "lay" | "rd" | "file" | "dict" | "dictw" -> "-" ^ List.nth p 1
+    | "filed" -> "-" ^ Filename.basename (List.nth p 1)
+    | "cms" -> "-" ^ List.nth p 2 ^ st_fmt (List.nth p 3)
+    | "cmsrd" -> "-" ^ List.nth p 2
+    | "glyphrd" when String.length (List.nth p 2) >= 2 && (List.nth p 2).[0] >= '8' && List.nth p 2 <> "-" -> "-composite"
+    | _ -> "" in
   let cls =
     if out = "n/a" then ""
     else if List.exists (fun (_, v) -> starts_with "err:" v) (parts out) then "-err"
